@@ -57,6 +57,10 @@ def cases(tier, seed):
     # keywords and values with blanks, tabs, line ends around and inside them (returned exactly as written)
     for blank in (' ', '\t', '\n', '\x0c'):
         yield dict(kind='dict-blank', blank=blank, maxlen=3)
+    # characters above 127 (ISO-8859-1 text: accents, the degree sign, no-break space), in pairs that would also be valid UTF-8
+    yield dict(kind='dict-latin1')
+    # whole files whose supplemental TEXT segment is ill-formed: refused, not loaded without its keywords
+    yield dict(kind='files-bad-stext', tier=tier)
     for delim in '/|\\, *~:;!#%&()+-.<=>?@[]^_`{}\'"' + 'aZ':   # not '$': standard keywords start with it
         yield dict(kind='files', delim=delim, tier=tier)
 
@@ -227,6 +231,56 @@ def run_case(c):
                         judge(res, s, supp)
         res.sample({'alphabet': ['x', c['blank'], '/'], 'max_length': c['maxlen']})
         return res
+    if k == 'dict-latin1':
+        hi = ['\xc3', '\xa9', '\xc2', '\xa0', '\xb0', '\xe9', '\xff', '\x80', '\xdf', '\xbf']
+        S = [a + b for a in hi + ['x'] for b in hi + ['x', '']]
+        for a in S:
+            for b in S[::3] + [a]:
+                for supp, leading in ((False, True), (True, False)):
+                    s = textref.encode([('K' + a, b + 'v')], D, leading=leading)
+                    judge(res, s, supp)
+        for code in range(128, 256):
+            for code2 in (0xa0, 0xa9, 0xbf, 0x80):
+                s = textref.encode([('NOTE', chr(code) + chr(code2)), ('k' + chr(code), 'plain')], D)
+                judge(res, s, False)
+        res.sample({'alphabet': 'bytes 0x80..0xff in pairs', 'example': 'Jos\xc3\xa9 / 37\xc2\xb0C'})
+        return res
+    if k == 'files-bad-stext':
+        bads = []
+        for n in range(1, 6 if c.get('tier') == 'quick' else 7):
+            for t in itertools.product('/ab', repeat=n):
+                sraw = ''.join(t)
+                st, tokens, tt = textref.tokenize(sraw, D, True)
+                if st == textref.ACCEPT and tokens is not None and len(tokens) % 2 == 0:
+                    continue
+                bads.append((sraw, st))
+        for i, (sraw, st) in enumerate(bads):
+            lay = dict(version=('FCS3.0', 'FCS3.1')[i % 2], datatype='I', byteord='1,2,3,4', bits=[16, 16], ranges=[1024, 1024],
+                       events=[[1, 2], [3, 4]], delim=D, extra=[('K1', 'v1')], stext=[('S', 'x')], stext_raw=sraw, stext_pos=('after', 'before')[(i // 2) % 2])
+            buf, info = fcsgen.build(dict(lay))
+            path = os.path.join(scratch(), 'c14b.fcs')
+            with open(path, 'wb') as f:
+                f.write(buf)
+            one = dict(kind='files-bad-stext-one', raw=sraw)
+            if c.get('only') is not None and c['only'] != sraw:
+                continue
+            try:
+                with warnings.catch_warnings(record=True) as w:
+                    warnings.simplefilter('always')
+                    import FlowCal
+                    dd = FlowCal.io.FCSData(path)
+            except Exception:
+                res.ok('file-bad-stext:refused', True)
+                continue
+            if st == textref.TOLERATED and any('ill-formed' in str(x.message) for x in w):
+                res.ok('file-bad-stext:tolerated-with-warning', True)
+                continue
+            res.violation('file-bad-stext:loaded', 'a file whose supplemental TEXT segment is %r (cannot be split into keyword/value pairs) was loaded; keywords beyond the primary ones: %r' % (
+                sraw, {k_: v for k_, v in dd.text.items() if k_ not in dict(info['primary_pairs'])}), one)
+        res.sample({'ill-formed supplemental segments': len(bads), 'alphabet': '/ a b'})
+        return res
+    if k == 'files-bad-stext-one':
+        return run_case(dict(kind='files-bad-stext', tier='thorough', only=c['raw']))
     if k == 'delims':
         for code in range(1, 127):
             d = chr(code)
